@@ -25,14 +25,21 @@ pub struct TyBig<const S: usize, const A: usize>([u8; 192]);
 pub struct SynthResolver;
 
 pub fn parse_shape(name: &str) -> (usize, usize, bool) {
-    // "S<size>A<align>[U]"
+    parse_shape_opt(name).unwrap_or_else(|| panic!("bad type name {}", name))
+}
+
+/// "S<size>A<align>[U]": the names the synthetic resolver answers; None for any other name
+pub fn parse_shape_opt(name: &str) -> Option<(usize, usize, bool)> {
     let u = name.ends_with('U');
     let core = name.trim_end_matches('U');
-    let core = core.strip_prefix('S').unwrap_or_else(|| panic!("bad type name {}", name));
+    let core = core.strip_prefix('S')?;
     let mut it = core.split('A');
-    let s = it.next().unwrap().parse().unwrap();
-    let a = it.next().unwrap().parse().unwrap();
-    (s, a, u)
+    let s = it.next()?.parse().ok()?;
+    let a = it.next()?.parse().ok()?;
+    if it.next().is_some() {
+        return None;
+    }
+    Some((s, a, u))
 }
 
 impl TypeResolver for SynthResolver {
